@@ -1082,6 +1082,19 @@ def group_nearby_members(
 # ===== Rolling Aggregation Methods =====
 
 
+def _check_row_aligned_lengths(group_key, values, mask):
+    """The row-aligned kernels index values and mask by the row number of the keys."""
+    n_values = sum(len(v) for v in values)
+    if n_values != len(group_key):
+        raise ValueError(
+            f"Length of values ({n_values}) does not match length of group_key ({len(group_key)})"
+        )
+    if mask is not None and len(mask) != len(group_key):
+        raise ValueError(
+            f"Length of mask ({len(mask)}) does not match length of group_key ({len(group_key)})"
+        )
+
+
 def _apply_rolling(
     operation: str,
     group_key: ArrayType1D,
@@ -1153,6 +1166,7 @@ def _apply_rolling(
 
     rolling_1d_func = rolling_1d_funcs[operation]
     values = _val_to_numpy(values, as_list=True)
+    _check_row_aligned_lengths(group_key, values, mask)
     values, orig_dtypes = zip(*list(map(_cast_timestamps_to_ints, values)))
     orig_dtype = orig_dtypes[0]
     values_are_times = orig_dtype.kind in "mM"
@@ -1762,6 +1776,7 @@ def _apply_cumulative(
     counting = "count" in operation
 
     values = _val_to_numpy(values, as_list=True)
+    _check_row_aligned_lengths(group_key, values, mask)
     values, orig_dtypes = zip(*list(map(_cast_timestamps_to_ints, values)))
     orig_dtype = orig_dtypes[0]
 
